@@ -15,7 +15,7 @@ func init() {
 		Explanation: "Decides the structural clauses behind 'admission pauses every relevant change': (R8.1) in every workload handler (Deployment fresh-release part, CloneSet, DaemonSet, StatefulSet-like) each `return true, nil` is preceded on every path by the store of the hold-back knob (paused=true / partition=100% / partition=MaxInt16) and by the in-progress annotation whose value derives from the matched Rollout's name; " +
 			"(R8.2) those stores are reachable only when a release change was detected (rollout-id changed, or no rollout-id and the template differs ignoring the hash label), a Rollout matched, its strategy is not empty, replicas are not 0 (kinds with replicas) and — with traffic routing — the single-revision condition holds; both fetchMatchedRollout copies return only a live (no deletion timestamp), not Disabled Rollout whose group/kind/name equal the object's, and they examine every candidate before answering 'none' (no early nil return inside the loop); " +
 			"(R8.3) both Handle functions produce a patch only under changed==true; (R8.4) in the in-progress branch of handleDeployment the partition and default styles leave Spec.Paused true on every exit; (R8.5) optional blocks (DaemonSet rollingUpdate) are dereferenced only under a nil check; the StatefulSet strategy predicate treats an absent type as RollingUpdate in all three representations (sibling rule).",
-		NotDecided: "the frame equality 'admitted object = submitted + exactly these fields' for all shapes; whether the webhook configuration's selectors match; EqualIgnoreHash semantics.",
+		NotDecided:  "the frame equality 'admitted object = submitted + exactly these fields' for all shapes; whether the webhook configuration's selectors match; EqualIgnoreHash semantics.",
 		Assumptions: []string{"facts are syntactic branch conditions; the hold-back knob per kind is frozen from the workload APIs"},
 	})
 }
@@ -105,7 +105,9 @@ func runC08(c *Ctx) {
 		}
 		short := shortName(h.fn)
 		// the fresh-release returns: `return true, nil` leaves that are not in the in-progress branch
-		inProgress := FCmp("!=", func(t *Term) bool { return t.Op == "lookup" && t.Args[1].Op == "const" && t.Args[1].Name == inProgressKey }, MConst(""))
+		inProgress := FCmp("!=", func(t *Term) bool {
+			return t.Op == "lookup" && t.Args[1].Op == "const" && t.Args[1].Name == inProgressKey
+		}, MConst(""))
 		n := 0
 		for _, ret := range returnsOf(fn) {
 			fs := FactsFor(fn).At(ret.Block())
@@ -244,7 +246,9 @@ func runC08(c *Ctx) {
 
 	// ---- R8.4
 	if fn := p.Func(pk + "WorkloadHandler.handleDeployment"); fn != nil {
-		inProgress := FCmp("!=", func(t *Term) bool { return t.Op == "lookup" && t.Args[1].Op == "const" && t.Args[1].Name == inProgressKey }, MConst(""))
+		inProgress := FCmp("!=", func(t *Term) bool {
+			return t.Op == "lookup" && t.Args[1].Op == "const" && t.Args[1].Name == inProgressKey
+		}, MConst(""))
 		// the store Paused = true under !Paused, for partition style and default style
 		n := 0
 		for _, b := range fn.Blocks {
